@@ -113,6 +113,7 @@ class Dmn(Family):
         for f, sz in ((1, 0x8000), (2, 0x8000), (3, 0x8000)):
             steps.append(st("file_size", [f, sz]))
         table = []
+        gone = []                           # regions that were in the table earlier
         ev = [200]
         calls = {}
         failing = rng.chance(1, 3)          # whether this history ends with deliberately failing operations
@@ -132,6 +133,7 @@ class Dmn(Family):
                     regs.append(list(regs[0]))
                 steps.append(st("set_mem_table", [], b"", regs))
                 if not bad:
+                    gone.extend(table)
                     table[:] = regs
             elif k <= 3:
                 r = self.region(rng, bad)
@@ -157,7 +159,17 @@ class Dmn(Family):
                 else:
                     r = rng.choice(table)
                     table.remove(r)
+                    gone.append(r)
                 steps.append(st("rem_mem", r))
+                if not bad and rng.chance(1, 2):
+                    # the same guest range comes back under another user address
+                    for _ in range(10):
+                        ua = rng.choice(self.UAS) + 0x10000 * rng.below(4)
+                        if ua + r[1] < 2**64 and all(ua + r[1] <= x[2] or x[2] + x[1] <= ua for x in table + gone):
+                            n = [r[0], r[1], ua, r[3], r[4]]
+                            table.append(n)
+                            steps.append(st("add_mem", n))
+                            break
         table_op(False)
         for i in range(depth):
             k = rng.below(20)
@@ -185,7 +197,14 @@ class Dmn(Family):
                 d = self.uprobe(rng, table, 16)
                 a = self.uprobe(rng, table, 2)
                 u = self.uprobe(rng, table, 4)
-                if not late and table and rng.chance(3, 4):
+                stale = [g for g in gone if g not in table]
+                if stale and rng.chance(1, 4):
+                    # addresses inside a region that is no longer part of the table
+                    r = rng.choice(stale)
+                    d, a, u = r[2], r[2] + 0x100, r[2] + 0x200
+                    if rng.chance(1, 2) and table:
+                        d = rng.choice(table)[2]
+                elif not late and table and rng.chance(3, 4):
                     r = rng.choice(table)
                     d, a, u = r[2], r[2] + 0x100, r[2] + rng.choice([0x200, 0x400, r[1] - 0x100])
                     # the used index the guest left in memory
